@@ -176,6 +176,11 @@
  *****************************************************************************/
 
 #define LgPgSize	  12	/* Log[2](PgSize). pagesTest ok for 3..15. */
+#if defined(ALDOR_VERIF) && defined(ALDOR_VERIF_STO_LG_PGSIZE)
+/* Verification hook: small pages keep the section layout within a solver's reach. */
+# undef  LgPgSize
+# define LgPgSize	  ALDOR_VERIF_STO_LG_PGSIZE
+#endif
 
 #define PgSize (1L<<LgPgSize)	/* Granularity for OS request. */
 
